@@ -308,6 +308,20 @@ fn c10_exchange(cx: &mut Ctx, req: &str, scenario: usize, stream: &[u8]) {
 }
 
 pub fn c10(cx: &mut Ctx) {
+    // a redirect whose head never ends (broken server): the partial-redirect fallback accepts it; the
+    // message boundaries are lost, so the connection must never be offered for reuse
+    for reqv in ["HTTP/1.0", "HTTP/1.1"] {
+        for conn in ["", "Connection: keep-alive\r\n", "connection: Keep-Alive\r\nConnection: keep-alive\r\n", "Connection: close\r\n"] {
+            for order in 0..2 {
+                for tail in ["", "Content-Le", "X: y\r\n", "X: y\r\n\r"] {
+                    cx.case("lost");
+                    let head = if order == 0 { format!("HTTP/1.1 302 Found\r\n{}Location: /next\r\n{}", conn, tail) } else { format!("HTTP/1.1 307 T\r\nLocation: /next\r\n{}{}", conn, tail) };
+                    let req = format!("GET {} http://a.test/p 0", reqv);
+                    c10_exchange(cx, &req, 0, head.as_bytes());
+                }
+            }
+        }
+    }
     let conn_req: [&[(&str, &[u8])]; 4] = [&[], &[("connection", b"close")], &[("connection", b"keep-alive")], &[("connection", b"keep-alive"), ("connection", b"close")]];
     let conn_resp: [&str; 4] = ["", "Connection: close\r\n", "Connection: keep-alive\r\n", "Connection: keep-alive\r\nconnection: close\r\n"];
     let statuses: [(u16, &str); 3] = [(200, ""), (302, "Location: /next\r\n"), (204, "")];
@@ -417,20 +431,27 @@ pub fn c12(cx: &mut Ctx) {
             for chunk in strings.chunks(60) {
                 cx.case("body");
                 for s in chunk {
-                    if !super::bodyr::to_recv_body(cx, "GET", head) { continue; }
                     let mut w = pre.to_vec(); w.extend_from_slice(s);
-                    let cap = 1 + (s.len() % 3) * 4;
-                    let mut off = 0;
-                    for _ in 0..4 {
-                        let res = cx.op(&format!("bread {} {}", hx(&w[off..]), cap));
-                        let p: Vec<&str> = res.split(' ').collect();
-                        if p[0] != "bytes" { break; }
-                        let i: usize = p[1].parse().unwrap();
-                        off += i;
-                        if i == 0 && p[2] == "-" { break; }
+                    // every two-piece arrival of the window (the caller re-presents what was not consumed)
+                    let cuts: Vec<usize> = if s.len() <= 2 { (0..=w.len()).collect() } else { vec![w.len()] };
+                    for cut in cuts {
+                        if !super::bodyr::to_recv_body(cx, "GET", head) { continue; }
+                        let cap = 1 + (s.len() % 3) * 4;
+                        let mut off = 0;
+                        for upto in [cut, w.len()] {
+                            for _ in 0..4 {
+                                if off > upto { break; }
+                                let res = cx.op(&format!("bread {} {}", hx(&w[off..upto]), cap));
+                                let p: Vec<&str> = res.split(' ').collect();
+                                if p[0] != "bytes" { break; }
+                                let i: usize = p[1].parse().unwrap();
+                                off += i;
+                                if i == 0 && p[2] == "-" { break; }
+                            }
+                        }
+                        cx.op("canproceed");
+                        cx.op("proceed");
                     }
-                    cx.op("canproceed");
-                    cx.op("proceed");
                 }
             }
         }
